@@ -1671,9 +1671,15 @@ class GroupBy:
             values, mask
         )
 
+        if times is not None and len(times) != len(self):
+            # checked here as well as in ema_grouped: times[indexer] below would
+            # silently take the right number of rows from a longer array
+            raise ValueError(
+                "group_key, values, times must have equal length. Got lengths: "
+                f"{{'group_key': {len(self)}, 'values': {len(self)}, 'times': {len(times)}}}"
+            )
         if isinstance(times, pd.Series):
             # times must carry the same index as the keys and the values
-            # (its length is checked by ema_grouped)
             for index in (self._key_index, common_index):
                 if index is not None and not index.equals(times.index):
                     raise ValueError(
